@@ -80,6 +80,8 @@ def _value_pool():
       {'macro': 'M0'}, {'list': [{'macro': 'M1'}]},
       {'obj': 'tok'}, {'obj': 'inf'}, {'obj': 'nan'}, {'obj': 'enum'},
       {'obj': 'set'}, {'obj': 'list_with_tok'},
+      # an int too long for str() / repr() (CPython's int-to-str digit limit)
+      {'obj': 'hugeint'},
       # references as dict keys (written with more than their minimal name) and
       # as dict values
       {'dict': [[{'ref': ['', 'q.Zed', False]}, {'lit': 1}]]},
@@ -134,7 +136,8 @@ def _materialise(v):
     kind = v['obj']
     obj = {'tok': probes.Tok(0, 'object'), 'inf': float('inf'),
            'nan': float('nan'), 'enum': Mode.FAST, 'set': {1, 2},
-           'list_with_tok': [1, probes.Tok(0, 'inner')]}[kind]
+           'list_with_tok': [1, probes.Tok(0, 'inner')],
+           'hugeint': 10 ** 5000}[kind]
     return obj, None, False
   if 'bytes' in v:
     b = v['bytes'].encode('latin1')
